@@ -37,3 +37,13 @@ Example C11_nonvacuous :
   LDone [mk (IToken TName) 0 1; mk (IComment true) 2 5; mk (IToken (TStr [10%N])) 8 4;
          mk (IToken (TRune 59%N)) 12 1; mk (IToken TEof) 13 0].
 Proof. exact lex_example. Qed.
+
+(* the three statements composed, end to end: an accepted input is the optional byte order mark followed by the
+   concatenation, in order, of each item's leading whitespace and raw text, and the last item is the EOF token
+   at the end of the input *)
+Theorem C11_lex_rebuilds_source : forall data items, lex data = LDone items ->
+  exists cs, chunks_ok 0 cs items /\
+             (data = flatten_chunks cs \/ data = [239; 187; 191]%N ++ flatten_chunks cs) /\
+             exists e, last items e = mk (IToken TEof) (length (strip_bom data)) 0.
+Proof. exact lex_rebuilds_source_lemma. Qed.
+Print Assumptions C11_lex_rebuilds_source.
